@@ -1220,7 +1220,9 @@ def m_npmax(ex, st, args, kwargs, node):
             st.assume(r >= 0)
             st.ghost.setdefault('maxabs', []).append((v.note[1], r))
             return r
-        return ex.fresh_real('max')
+        r = ex.fresh_real('max')
+        st.ghost.setdefault('signedmax', []).append((v, r))      # np.max / np.min of a SIGNED array: may vanish or be negative
+        return r
     raise Unsupported('np.max of a non-array')
 
 
